@@ -44,6 +44,7 @@ CONCRETE = {
     "same client port towards two servers, tls+quic": [T((1, 40000), (2, 443)), T((1, 40000), (3, 443)), QC((1, 40000), (3, 443), "0703070707070707", "", "05")],
     "three quic: empty, one-byte and two-byte cids": [QC((1, 40000), (2, 443), "0701070707070707", "", "09"), QC((1, 40001), (2, 443), "0702070707070707", "09", ""),
                                                       QC((4, 40000), (2, 443), "0703070707070707", "0909", "0909")],
+    "quic whose new cid extends its old cid (prefix within one side)": [QC((1, 40000), (2, 443), "0701070707070707", "0101", "0505", ncid="extend"), QC((1, 40001), (2, 443), "0702070707070707", "02", "05")],
     # beyond the model's sets: more connections, mixed IP versions
     "mixed: 2 tls (v4/v6 same host numbers) + 2 quic": [T((1, 40000), (2, 443)), T((1, 40000), (2, 443), ipv=6),
                                                         QC((1, 40000), (2, 443), "0a01070707070707", "aa01", "bb01", ipv=6), QC((1, 40002), (2, 443), "0a02070707070707", "aa02", "bb02")],
@@ -85,7 +86,8 @@ def build_one(cd, idx, seed):
                    dict(d="c", pkts=[dict(t="A", d="c", gen=0, frames=[dict(ft="stream", a=3, b=0), dict(ft="other", a="ack", b=0)])]),
                    dict(d="s", pkts=[dict(t="A", d="s", gen=0, frames=[dict(ft="other", a="ack", b=0), dict(ft="stream", a=4, b=0)])])],
              out=[], kf=False)
-    params = dict(odcid=cd["odcid"], cid_c=cd["ccid"], cid_s=cd["scid"], cid_switch=bool(cd["ncid"]), pnlen={"c": rng.choice([1, 2]), "s": rng.choice([1, 2, 4])})
+    params = dict(odcid=cd["odcid"], cid_c=cd["ccid"], cid_s=cd["scid"], cid_switch=bool(cd["ncid"]), ncid_extend=(cd["ncid"] == "extend"),
+                  pnlen={"c": rng.choice([1, 2]), "s": rng.choice([1, 2, 4])})
     if cd["ncid"]:
         rng2 = random.Random(seed)
     c, payload = build_quic(b, seed, params)
